@@ -107,12 +107,15 @@ TEXTS = {
                  "import target and followed dependency target of every module entry is settled (following recorded "
                  "redirects reaches an entry). Also: at most one entry per specifier, no pending entry, recorded "
                  "dependencies are the parser's declaration adjusted only by graph kind. The converse (nothing "
-                 "unreachable is present) is not yet proved: PARTIAL; decided per case through the model equality and "
-                 "through C15/C02 on real graphs."),
+                 "unreachable is present) is proved for stage B1 on worlds whose answers report the requested specifier "
+                 "as the final one and whose modules declare no asset imports, without npm resolver (C01_b1_sound, an "
+                 "invariant over every loop step); it is refuted outside those hypotheses (F-C01c: an asset-request "
+                 "error replaces a module entry; aliases; the registry stage: F-C01a/b) and judged per case on every "
+                 "alias-free world by procedures proved sound (C01_b1_judge_sound, C01_registry_judge_sound): PARTIAL."),
         "design_ref": "DESIGN.md section 5 C01",
         "note": ("Trusted: Coq kernel; extraction; the harness's world abstraction (each module's declaration comes "
                  "from the real parse_module; media types from the real header resolution; interning). Not modelled in "
-                 "this stage: JSR/npm, source-phase imports, source maps, locker, non-utf-8 sources."),
+                 "this stage: source maps, non-utf-8 sources (the registry is a second model, Jsr.v)."),
         "technique": "executable Coq model of the builder state machine + invariant proofs + differential testing against the real builder",
     },
     "C03": {
